@@ -101,8 +101,9 @@ Fixpoint to_json (y : yaml) : res json :=
   | YTag _ _ => Err
   end.
 
-(* repair F26: two keys of one mapping that are the same string once the !sd tag is removed (serde_yaml itself refuses
-   equal keys, so one of the two carries the tag) are an error, as the same document without its tags is. The walk
+(* repairs F26, F27: two keys of one mapping that name the same member of the JSON claims - the same string once the !sd
+   tag is removed (serde_yaml itself refuses equal keys, so one of the two carries the tag), or a scalar and the string
+   that spells it - are an error, as the same document without its tags is. The walk
    reports it where it rebuilds the mapping; whatever the walk does not visit (below a key that is no scalar, inside a
    tagged value) makes the conversion fail anyway, so the outcome is that of a check over the whole tree. *)
 Definition stripped_name (k : yaml) : option string :=
@@ -111,13 +112,18 @@ Definition stripped_name (k : yaml) : option string :=
   | YTag t (YStr s) => if String.eqb t sd_tag then Some s else None
   | _ => None end.
 
+(* the member of the JSON claims a key names (repair F27: a number, boolean or null names the member its text spells,
+   so `1` and "1" collide as well) *)
+Definition member_name (k : yaml) : option string :=
+  match stripped_name k with Some s => Some s | None => key_name k end.
+
 Fixpoint has_dup (l : list string) : bool :=
   match l with [] => false | x :: r => existsb (String.eqb x) r || has_dup r end.
 
 Fixpoint clash (y : yaml) : bool :=
   match y with
   | YMap kvs =>
-      has_dup (flat_map (fun kv : yaml * yaml => let '(k, _) := kv in match stripped_name k with Some s => [s] | None => [] end) kvs)
+      has_dup (flat_map (fun kv : yaml * yaml => let '(k, _) := kv in match member_name k with Some s => [s] | None => [] end) kvs)
       || existsb (fun kv : yaml * yaml => let '(_, v) := kv in clash v) kvs
   | YSeq xs => existsb clash xs
   | YTag _ v => clash v
